@@ -133,6 +133,71 @@ def gen_frame(rng, dict_=b"", small=True, bsid=None, indep=None, bcrc=None, ccrc
             "hlen": len(header(bsid, indep, bcrc, csize, ccrc, dictid))}
     return fr, bytes(content), meta
 
+def far_match_block(rng, hist, nseq=None, off_lo=40000, off_hi=65535, maxc=60000):
+    """A compressed block (built from sequences, strictly valid) whose matches all reach far back into the
+    history: offsets in [off_lo, off_hi].  Returns (block, content)."""
+    out = bytearray(hist)
+    h = len(hist)
+    blk = bytearray()
+    nseq = nseq or rng.choice([3, 8, 20, 40])
+    for k in range(nseq):
+        lits = rng.randbytes(rng.choice([0, 1, 3, 16, 40]))
+        avail = len(out) + len(lits)
+        hi = min(off_hi, avail)
+        lo = min(off_lo, hi)
+        if hi < 1:
+            break
+        off = rng.randrange(lo, hi + 1)
+        ml = min(rng.choice([4, 19, 200, 1000, 3000, 20000]), off)     # no overlap: plain slice copy
+        room = maxc - 64 - (len(out) - h) - len(lits)
+        if room < 4:
+            break
+        ml = min(ml, room)
+        out += lits
+        start = len(out) - off
+        out += out[start:start + ml]
+        blk += declib.enc_seq(lits, off, ml)
+    # end-of-block conditions: last 5 bytes literals, last match starts >= 12 bytes before the end
+    last = rng.randbytes(rng.choice([12, 13, 20, 30]))
+    out += last
+    blk += declib.enc_last(last)
+    return bytes(blk), bytes(out[h:])
+
+def gen_recycle_frame(rng, bsid=4, ccrc=None, bcrc=None, dict_=b"", delta=None, small_blocks=False, ncomp=None):
+    """Directed family: LINKED blocks; a short uncompressed block, then uncompressed blocks until the output
+    exceeds maxBlockSize + 128 KB (the capacity of the decoder's history buffer, so that a decoder working
+    with small destination buffers has to recycle it) by [delta] < 40000 bytes, then one or two compressed
+    blocks whose matches (offsets 40000..65535) reach across the recycling point.  Returns (frame, content, meta)."""
+    maxb = BSIZE[bsid]
+    ccrc = rng.random() < 0.5 if ccrc is None else ccrc
+    bcrc = rng.random() < 0.3 if bcrc is None else bcrc
+    delta = delta if delta is not None else rng.choice([1, 500, 3000, 10000, 10000, 20000, 35000, rng.randrange(1, 39000)])
+    target = maxb + 131072 + delta                      # output before the first compressed block
+    content = bytearray()
+    body = bytearray()
+    sizes = []
+    first = rng.choice([1, 100, 3000, 10000, 10000, 20000])
+    sizes.append(first)
+    while sum(sizes) < target:
+        rem = target - sum(sizes)
+        n = rng.choice([300, 1000, 2500, 4096]) if small_blocks else maxb
+        sizes.append(min(n, rem))
+    for n in sizes:
+        data = rng.randbytes(n)
+        body += block(data, True, bcrc); content += data
+    ncomp = ncomp or rng.choice([1, 1, 2])
+    for j in range(ncomp):
+        hist = (bytes(dict_) + bytes(content))[-65536:]
+        blk, c = far_match_block(rng, hist, maxc=min(maxb, 60000))
+        body += block(blk, False, bcrc); content += c
+    csize = rng.choice([None, len(content)])
+    fr = header(bsid, False, bcrc, csize, ccrc, None) + bytes(body) + struct.pack("<I", 0)
+    if ccrc:
+        fr += struct.pack("<I", xxh32(bytes(content)))
+    meta = {"bsid": bsid, "indep": False, "bcrc": bcrc, "ccrc": ccrc, "csize": csize, "raw_sizes": sizes[:3] + ["..."] + [len(sizes)],
+            "delta": delta, "hlen": len(header(bsid, False, bcrc, csize, ccrc, None)), "ncomp": ncomp}
+    return fr, bytes(content), meta
+
 def mutate_frame(rng, fr):
     b = bytearray(fr)
     k = rng.randrange(7)
@@ -349,6 +414,8 @@ def chunk_plan(rng, policy, total, hlen=7):
         return lambda pos, hint: (cut - pos) if pos < cut else (total - pos)
     if policy == "hint":
         return lambda pos, hint: max(1, hint)
+    if policy == "kb":
+        return lambda pos, hint: rng.choice([1500, 4096, 10000, 30000])
     sizes = [1, 1, 2, 3, 4, 5, 7, 8, 15, 16, 19, 64, 300, 5000, 70000]
     return lambda pos, hint: rng.choice(sizes)
 
@@ -357,6 +424,11 @@ def cap_plan(rng, policy, bs):
         return lambda: rng.choice([0, 1, 2, 7, 100, bs - 1, bs, bs + 1])
     if policy == "small":
         return lambda: rng.choice([0, 1, 2, 7, 100, 1000])
+    if isinstance(policy, str) and policy.startswith("fix"):          # "fix4096": the same small capacity every call
+        v0 = int(policy[3:])
+        return lambda: v0
+    if policy == "kb":                                                 # a few KB, varying
+        return lambda: rng.choice([1000, 3000, 4096, 10000, 20000])
     if policy == "mid":
         return lambda: rng.choice([1000, 4096, 20000, bs // 2, bs - 1, bs, rng.randrange(1000, bs)])
     v = {"1": 1, "7": 7, "bs-1": bs - 1, "bs": bs, "large": bs + 70000}[policy] if isinstance(policy, str) else int(policy)
